@@ -11,6 +11,14 @@ Local Open Scope Z_scope.
 From Coq Require Import Sorted.
 From DSW Require Import ShuffleProofs WalkProofs CoderProofs.
 
+(* Proved here (is_faster = False, need_path = False; mf is the fuel of the MODEL's recursion, one unit per nucleotide):
+     encode_normal_gen_ok, encode_normal_gen_raise   (both are corollaries of encode_normal_gen_both).
+   Decomposition: (a) en_cmp_ge0 / en_where: where(accessor[v] >= 0)[0] = varr (used_indices row);
+   (b) en_fancy / en_argsort / en_exec_shuf: the shuffled digit = Coder.shuffle_digit (table_shape gives NoDup keys);
+   (c) en_body_step: one iteration of the loop body = enc_step (one step of Coder.encode_normal, en_encode_normal_step);
+   (d) en_loop: the while loop = Coder.encode_normal, by induction on the model's fuel, invariant enc_inv stated through lookup;
+   (e) en_run_unfold (head: bit_to_number callee, total_state) and en_exec_final (tail: set_vt callee, result shape). *)
+
 (* ---- tactics ------------------------------------------------------------------------------------------------------ *)
 Ltac lk := repeat (rewrite lookup_update_same || (rewrite lookup_update_other by discriminate)).
 Ltac step := cbn [exec eval lift seq rbind assign items bind_tuple builtin1_val builtin2_val binop_vals binop_scalar
@@ -287,12 +295,12 @@ Section Enc.
 
   Ltac st := cbn [exec eval lift seq rbind assign items bind_tuple].
 
-  Lemma en_exec_div en q used :
+  Lemma en_exec_div en q used rest :
     lookup "quotient" en = Ret (dstr q) -> lookup "used_indices" en = Ret (varr used) ->
     canonical q -> 2 <= Z.of_nat (length used) <= 4 ->
     let qr := calculus_division q (Z.of_nat (length used)) in
-    exec ce fuel (SSeq enc_s_div enc_s_int) en =
-      ONormal (update "remainder" (VInt (snd qr)) (update "remainder" (dstr [snd qr]) (update "quotient" (dstr (fst qr)) en)))
+    exec ce fuel (SSeq enc_s_div (SSeq enc_s_int rest)) en =
+      exec ce fuel rest (update "remainder" (VInt (snd qr)) (update "remainder" (dstr [snd qr]) (update "quotient" (dstr (fst qr)) en)))
     /\ canonical (fst qr) /\ 0 <= snd qr < Z.of_nat (length used).
   Proof.
     intros I1 HU HC Hn. set (n := Z.of_nat (length used)) in *. cbv zeta.
@@ -335,4 +343,231 @@ Section Enc.
     - change (builtin1_val BIsNone VNone) with (Ret (VBool true)). cbn [rbind truthy lift negb].
       exists en. split; [reflexivity|]. split; [exact HR|]. intros; reflexivity.
   Qed.
+
+  Lemma en_exec_val en used rem :
+    lookup "used_indices" en = Ret (varr used) -> lookup "remainder" en = Ret (VInt rem) ->
+    lookup "need_path" en = Ret (VBool false) ->
+    exec ce fuel enc_s_val en = match py_get used rem with Ok j => ONormal (update "value" (VInt j) en) | _ => OExn IndexError end.
+  Proof.
+    intros HU HR I5. unfold enc_s_val. st. rewrite HU, HR. st. rewrite en_index_arr.
+    destruct (py_get used rem) as [j| |]; cbn [lift seq]; try reflexivity.
+    lk. rewrite I5. reflexivity.
+  Qed.
+
+  Lemma en_exec_branch en used :
+    lookup "used_indices" en = Ret (varr used) ->
+    exec ce fuel enc_s_branch en =
+    if 1 <? Z.of_nat (length used) then exec ce fuel enc_s_many en
+    else if Z.of_nat (length used) =? 1 then exec ce fuel enc_s_one en else OExn ValueError.
+  Proof.
+    intro HU. unfold enc_s_branch. rewrite !exec_if. cbn [eval]. rewrite HU. cbn [rbind]. rewrite en_len_arr.
+    cbn [rbind cmp_vals cmp_scalar mixes_bool is_arr orb lift truthy val_eqb].
+    destruct (1 <? Z.of_nat (length used)); [reflexivity|].
+    destruct (Z.of_nat (length used) =? 1); reflexivity.
+  Qed.
+
+  (* (c) one iteration of the loop body against one step of the model *)
+  Lemma en_body_step en q v strand :
+    enc_inv q v strand en -> canonical q -> 0 <= v < Z.of_nat (length acc) ->
+    match enc_step q acc v sh with
+    | Ok (q', nxt, j) => exists en', exec ce fuel enc_body en = ONormal en' /\ enc_inv q' nxt (strand ++ [nuc_char j]) en' /\
+                           canonical q' /\ 0 <= nxt < Z.of_nat (length acc)
+    | Raise e => exec ce fuel enc_body en = OExn e
+    | OutOfFuel => True
+    end.
+  Proof.
+    intros HI HC Hv. pose proof HI as (I1 & I2 & I3 & I4 & I5 & I6 & I7 & I8 & I9 & I10).
+    assert (Eg : py_get acc v = Ok (nth (Z.to_nat v) acc [])) by (apply py_get_ok; lia).
+    assert (Hrow : In (nth (Z.to_nat v) acc []) acc) by (apply nth_In; lia).
+    set (row := nth (Z.to_nat v) acc []) in *.
+    unfold enc_step. rewrite Eg. cbn [bind].
+    unfold enc_body. rewrite exec_seq, (en_exec_used en v row I2 I3 Eg). cbn [seq]. rewrite exec_seq.
+    set (en1 := update "used_indices" (varr (used_indices row)) en).
+    assert (HI1 : enc_inv q v strand en1) by (unfold enc_inv, en1; lk; exact HI).
+    assert (HU1 : lookup "used_indices" en1 = Ret (varr (used_indices row))) by (unfold en1; lk; reflexivity).
+    rewrite (en_exec_branch en1 _ HU1).
+    destruct (en_row_facts acc row HA Hrow) as (UN & UF & UL & UX).
+    destruct (used_indices row) as [|j [|j2 t]] eqn:EU.
+    - reflexivity.
+    - cbn [length]. change (1 <? Z.of_nat 1) with false. change (Z.of_nat 1 =? 1) with true. cbv iota.
+      rewrite (en_exec_one en1 q v strand j HI1 HU1). cbn [seq].
+      destruct (UX j ltac:(left; reflexivity)) as (nxt & En & Hn). rewrite En. cbn [bind].
+      destruct (en_exec_tail (update "value" (VInt j) en1) q v row j nxt strand) as (en' & EX & HI');
+        [unfold enc_inv; lk; exact HI1|lk; reflexivity|inversion UF; assumption|exact Eg|exact En|].
+      exists en'. split; [exact EX|split; [exact HI'|split; [exact HC|exact Hn]]].
+    - set (used := j :: j2 :: t) in *.
+      assert (Hlen : 2 <= Z.of_nat (length used) <= 4) by (unfold used in *; cbn [length] in *; lia).
+      replace (1 <? Z.of_nat (length used)) with true by lia.
+      unfold enc_s_many. destruct HI1 as (J1 & J2 & J3 & J4 & J5 & J6 & J7 & J8 & J9 & J10).
+      destruct (en_exec_div en1 q used (SSeq enc_s_shuf enc_s_val) J1 HU1 HC Hlen) as (EX1 & HQ & HR).
+      rewrite EX1. clear EX1. destruct (calculus_division q (Z.of_nat (length used))) as [q' rem]. cbn [fst snd] in *.
+      set (en2 := update "remainder" (VInt rem) (update "remainder" (dstr [rem]) (update "quotient" (dstr q') en1))).
+      rewrite exec_seq.
+      assert (HI2 : enc_inv q' v strand en2) by (unfold enc_inv, en2; lk; repeat split; assumption).
+      assert (HU2 : lookup "used_indices" en2 = Ret (varr used)) by (unfold en2; lk; exact HU1).
+      assert (HR2 : lookup "remainder" en2 = Ret (VInt rem)) by (unfold en2; lk; reflexivity).
+      destruct HI2 as (K1 & K2 & K3 & K4 & K5 & K6 & K7 & K8 & K9 & K10).
+      pose proof (en_exec_shuf en2 v used rem K4 K3 HU2 HR2 Hv UN UF) as SH.
+      destruct (shuffle_digit sh v used rem) as [rem'|e|]; cbn [bind]; [|rewrite SH; reflexivity|exact I].
+      destruct SH as (en3 & EX3 & HR3 & HF3). rewrite EX3. cbn [seq].
+      rewrite (en_exec_val en3 used rem') by (try exact HR3; rewrite HF3 by discriminate; assumption).
+      destruct (en_py_get_cases used rem') as [(j' & Ej & Hj)|Ej]; rewrite Ej; cbn [bind seq]; [|reflexivity].
+      destruct (UX j' Hj) as (nxt & En & Hn). rewrite En. cbn [bind].
+      rewrite Forall_forall in UF.
+      destruct (en_exec_tail (update "value" (VInt j') en3) q' v row j' nxt strand) as (en' & EX & HI');
+        [unfold enc_inv; lk; rewrite !HF3 by discriminate; repeat split; assumption|lk; reflexivity
+        |apply UF; exact Hj|exact Eg|exact En|].
+      exists en'. split; [exact EX|split; [exact HI'|split; [exact HQ|exact Hn]]].
+  Qed.
+
+  (* (d) the loop, by induction on the fuel of the model *)
+  Lemma en_while_unfold n en q : lookup "quotient" en = Ret (dstr q) ->
+    while_loop ce fuel enc_cond enc_body (S n) en =
+    if is_zero_str q then ONormal en else seq (exec ce fuel enc_body en) (while_loop ce fuel enc_cond enc_body n).
+  Proof.
+    intro I1. cbn [while_loop]. unfold enc_cond at 1. cbn [eval]. rewrite I1. cbn [rbind]. rewrite en_cmp_ne_zero.
+    cbn [lift truthy]. destruct (is_zero_str q); reflexivity.
+  Qed.
+
+  Lemma en_loop : forall mf q v strand n en,
+    enc_inv q v strand en -> canonical q -> 0 <= v < Z.of_nat (length acc) -> (mf < n)%nat ->
+    match encode_normal mf q acc v sh with
+    | Ok rest => exists en', while_loop ce fuel enc_cond enc_body n en = ONormal en' /\
+                   exists q' v', enc_inv q' v' (strand ++ rest) en'
+    | Raise e => while_loop ce fuel enc_cond enc_body n en = OExn e
+    | OutOfFuel => True
+    end.
+  Proof.
+    induction mf as [|mf IH]; intros q v strand n en HI HC Hv Hn; (destruct n as [|n]; [lia|]);
+      rewrite (en_while_unfold n en q (proj1 HI)).
+    - cbn [encode_normal]. destruct (is_zero_str q); [|exact I].
+      exists en. split; [reflexivity|]. exists q, v. rewrite app_nil_r. exact HI.
+    - rewrite en_encode_normal_step. destruct (is_zero_str q).
+      { exists en. split; [reflexivity|]. exists q, v. rewrite app_nil_r. exact HI. }
+      pose proof (en_body_step en q v strand HI HC Hv) as BS.
+      destruct (enc_step q acc v sh) as [[[q' nxt] j]|e|]; cbn [bind]; [|rewrite BS; reflexivity|exact I].
+      destruct BS as (en1 & EX & HI1 & HC1 & Hv1). rewrite EX. cbn [seq].
+      specialize (IH q' nxt (strand ++ [nuc_char j])%list n en1 HI1 HC1 Hv1 ltac:(lia)).
+      destruct (encode_normal mf q' acc nxt sh) as [rest|e|]; cbn [bind]; [|exact IH|exact I].
+      destruct IH as (en' & EW & q'' & v'' & HI''). exists en'. split; [exact EW|]. exists q'', v''.
+      rewrite <- app_assoc in HI''. exact HI''.
+  Qed.
+
+  (* (e) the tail: the check sequence and the shape of the result *)
+  Definition enc_s_final : stmt :=
+   (SSeq (SIf (EVar "need_path"%string)
+   (SAssign (TVar "record_path"%string) (EB1 BNpArray (EVar "record_path"%string)))
+   SSkip)
+   (SIf (ECmp CGt (EVar "vt_length"%string) (EInt (0)))
+   (SSeq (SAssign (TVar "vt_check"%string) (ECall "set_vt"%string [(EVar "dna_sequence"%string); (EVar "vt_length"%string)]))
+   (SIf (EVar "need_path"%string)
+   (SReturn (ETuple [(EVar "dna_sequence"%string); (ECall "set_vt"%string [(EVar "dna_sequence"%string); (EVar "vt_length"%string)]); (EVar "record_path"%string)]))
+   (SReturn (ETuple [(EVar "dna_sequence"%string); (EVar "vt_check"%string)]))))
+   (SIf (EVar "need_path"%string)
+   (SReturn (ETuple [(EVar "dna_sequence"%string); (EVar "record_path"%string)]))
+   (SReturn (EVar "dna_sequence"%string))))).
+
+  Lemma en_exec_final en q v s :
+    set_vt_callee ce fuel -> enc_inv q v s en -> 0 <= vt -> (2 * Z.to_nat vt < fuel)%nat ->
+    exec ce fuel enc_s_final en =
+    match (if 0 <? vt then chk <- set_vt s vt ;; Ok (s, Some chk) else Ok (s, None)) with
+    | Ok r => OReturn (res_of_encode r) | Raise e => OExn e | OutOfFuel => OFuel
+    end.
+  Proof.
+    intros HS (I1 & I2 & I3 & I4 & I5 & I6 & I7 & I8 & I9 & I10) Hvt Hf.
+    unfold enc_s_final. st. rewrite I5. cbn [truthy lift seq]. rewrite I10. st.
+    cbn [truthy lift cmp_vals cmp_scalar mixes_bool is_arr orb].
+    destruct (0 <? vt) eqn:E.
+    - st. rewrite I7. st. rewrite (HS s vt) by lia.
+      destruct (set_vt s vt) as [chk|e|]; cbn [res_of_str bind lift seq]; try reflexivity.
+      lk. rewrite I5. cbn [truthy lift]. st. lk. rewrite I7. st. reflexivity.
+    - st. rewrite I5, I7. reflexivity.
+  Qed.
 End Enc.
+
+(* ---- the whole function --------------------------------------------------------------------------------------------- *)
+Lemma en_exec_assign ce fuel t e en : exec ce fuel (SAssign t e) en = lift (eval ce en e) (fun v => assign ce t v en).
+Proof. reflexivity. Qed.
+
+Ltac evc := cbn [eval lift seq rbind assign items bind_tuple truthy lookup update String.eqb Ascii.eqb Bool.eqb negb].
+
+Definition enc_env0 (bits : list Z) (acc : list (list Z)) (v vt : Z) (sh : option (list (list Z))) (verbose : bool) : env :=
+  [("binary_message", varr bits); ("accessor", varr2 acc); ("start_index", VInt v);
+   ("is_faster", VBool false); ("vt_length", VInt vt); ("shuffles", v_table sh); ("need_path", VBool false);
+   ("verbose", VBool verbose); ("monitor", VOpaque); ("record_path", VList []); ("vertex_index", VInt v);
+   ("dna_sequence", VStr []); ("nucleotides", VStr [65; 67; 71; 84]); ("quotient", dstr (bit_to_number_str bits));
+   ("total_state", VInt (Z.of_nat (length (bit_to_number_str bits))))].
+
+Lemma en_run_unfold ce fuel bits acc v vt sh verbose :
+  callees_ok ce fuel -> Forall (fun a => 0 <= a <= 1) bits ->
+  run_fun ce fuel encode_def [varr bits; varr2 acc; VInt v; VBool false; VInt vt; v_table sh; VBool false; VBool verbose] =
+  match seq (while_loop ce fuel enc_cond enc_body fuel (enc_env0 bits acc v vt sh verbose)) (exec ce fuel enc_s_final) with
+  | ONormal _ => Ret VNone | OReturn r => Ret r | OExn e => Exn e | OFuel => Fuel | OStuck => Stuck
+  end.
+Proof.
+  intros Hce HB.
+  unfold run_fun. cbn [params body bind_params encode_def].
+  rewrite exec_seq, en_exec_assign. evc.
+  rewrite exec_seq, exec_if. evc.
+  rewrite exec_seq, en_exec_assign. evc.
+  rewrite (proj1 Hce bits verbose) by (eapply Forall_impl; [|exact HB]; cbv beta; intros; lia).
+  evc. rewrite exec_seq, en_exec_assign. evc. rewrite en_len_dstr. evc.
+  rewrite exec_while. reflexivity.
+Qed.
+
+Lemma encode_normal_gen_both : forall ce fuel bits acc v vt sh verbose mf,
+  callees_ok ce fuel -> set_vt_callee ce fuel ->
+  acc_shape acc -> 0 <= v < Z.of_nat (length acc) -> table_shape (length acc) sh ->
+  Forall (fun a => 0 <= a <= 1) bits -> 0 <= vt -> (2 * Z.to_nat vt < fuel)%nat -> (mf < fuel)%nat ->
+  match Coder.encode bits acc v false vt sh mf with
+  | Ok r => run_fun ce fuel encode_def [varr bits; varr2 acc; VInt v; VBool false; VInt vt; v_table sh; VBool false; VBool verbose]
+            = Ret (res_of_encode r)
+  | Raise e => run_fun ce fuel encode_def [varr bits; varr2 acc; VInt v; VBool false; VInt vt; v_table sh; VBool false; VBool verbose]
+            = Exn e
+  | OutOfFuel => True
+  end.
+Proof.
+  intros ce fuel bits acc v vt sh verbose mf Hce HS HA Hv HT HB Hvt Hf Hmf.
+  rewrite (en_run_unfold ce fuel bits acc v vt sh verbose Hce HB).
+  assert (HC : canonical (bit_to_number_str bits)).
+  { apply bit_to_number_str_spec. unfold bits_ok, bit. eapply Forall_impl; [|exact HB]. cbv beta. intros; lia. }
+  set (ts := Z.of_nat (length (bit_to_number_str bits))).
+  assert (HI : enc_inv acc sh verbose vt ts (bit_to_number_str bits) v [] (enc_env0 bits acc v vt sh verbose))
+    by (unfold enc_inv, enc_env0; repeat split; reflexivity).
+  pose proof (en_loop ce fuel Hce acc sh verbose vt ts HA HT mf (bit_to_number_str bits) v [] fuel _ HI HC Hv Hmf) as LP.
+  unfold encode. cbv iota.
+  destruct (encode_normal mf (bit_to_number_str bits) acc v sh) as [s|e|]; cbn [bind]; [|rewrite LP; reflexivity|exact I].
+  destruct LP as (en' & EW & q' & v' & HI'). rewrite EW. cbn [seq app] in *.
+  rewrite (en_exec_final ce fuel acc sh verbose vt ts en' q' v' s HS HI' Hvt Hf).
+  destruct (0 <? vt); [|reflexivity].
+  destruct (set_vt s vt); reflexivity.
+Qed.
+
+Theorem encode_normal_gen_ok : forall ce fuel bits acc v vt sh verbose mf r,
+  callees_ok ce fuel -> set_vt_callee ce fuel ->
+  acc_shape acc -> 0 <= v < Z.of_nat (length acc) -> table_shape (length acc) sh ->
+  Forall (fun a => 0 <= a <= 1) bits -> 0 <= vt -> (2 * Z.to_nat vt < fuel)%nat -> (mf < fuel)%nat ->
+  Coder.encode bits acc v false vt sh mf = Ok r ->
+  run_fun ce fuel encode_def [varr bits; varr2 acc; VInt v; VBool false; VInt vt; v_table sh; VBool false; VBool verbose]
+  = Ret (res_of_encode r).
+Proof.
+  intros ce fuel bits acc v vt sh verbose mf r Hce HS HA Hv HT HB Hvt Hf Hmf HE.
+  pose proof (encode_normal_gen_both ce fuel bits acc v vt sh verbose mf Hce HS HA Hv HT HB Hvt Hf Hmf) as H.
+  rewrite HE in H. exact H.
+Qed.
+
+Theorem encode_normal_gen_raise : forall ce fuel bits acc v vt sh verbose mf e,
+  callees_ok ce fuel -> set_vt_callee ce fuel ->
+  acc_shape acc -> 0 <= v < Z.of_nat (length acc) -> table_shape (length acc) sh ->
+  Forall (fun a => 0 <= a <= 1) bits -> 0 <= vt -> (2 * Z.to_nat vt < fuel)%nat -> (mf < fuel)%nat ->
+  Coder.encode bits acc v false vt sh mf = Raise e ->
+  run_fun ce fuel encode_def [varr bits; varr2 acc; VInt v; VBool false; VInt vt; v_table sh; VBool false; VBool verbose]
+  = Exn e.
+Proof.
+  intros ce fuel bits acc v vt sh verbose mf e Hce HS HA Hv HT HB Hvt Hf Hmf HE.
+  pose proof (encode_normal_gen_both ce fuel bits acc v vt sh verbose mf Hce HS HA Hv HT HB Hvt Hf Hmf) as H.
+  rewrite HE in H. exact H.
+Qed.
+
+Print Assumptions encode_normal_gen_ok.
+Print Assumptions encode_normal_gen_raise.
